@@ -103,12 +103,9 @@ class LexerModel:
         self._parse_tokenize()
 
     # ------------------------------------------------------------ tokenize
-    def _const(self, fn, e: ast.expr) -> Optional[str]:  # type: ignore[no-untyped-def]
-        try:
-            v = self.folder.eval(e, Scope(self.folder, fn.module, fn.cls))
-        except NotConst:
-            return None
-        return v if isinstance(v, str) else None
+    # The loop body of `tokenize` is executed abstractly once per lexer rule: the rule name is substituted for
+    # `match.lastgroup` (and for locals bound to it), locals assigned constants (also through constant
+    # dispatch tables: `out_kind, group = _CAPTURED[kind]`) are tracked, tests are folded.
 
     def _is_kind(self, e: ast.expr) -> bool:
         """`match.lastgroup`, or a local bound to it."""
@@ -116,13 +113,33 @@ class LexerModel:
             return True
         return isinstance(e, ast.Name) and e.id in self._kind_names
 
-    def _test(self, fn, test: ast.expr, rule: str) -> Optional[bool]:  # type: ignore[no-untyped-def]
+    def _fold(self, fn, e: ast.expr, rule: str, env: Dict[str, object]):  # type: ignore[no-untyped-def]
+        """Value of `e` with the matched rule known, or NotConst."""
+        import copy as _copy
+
+        model = self
+
+        class _K(ast.NodeTransformer):
+            def visit(self, node: ast.AST) -> ast.AST:
+                if isinstance(node, ast.expr) and model._is_kind(node):
+                    return ast.copy_location(ast.Constant(value=rule), node)
+                return super().visit(node)
+
+        e2 = _K().visit(_copy.deepcopy(e))
+        ast.fix_missing_locations(e2)
+        inst = Instance(fn.cls) if fn.cls is not None else None
+        loc: Dict[str, object] = dict(env)
+        if inst is not None:
+            loc.setdefault("self", inst)
+        return self.folder.eval(e2, Scope(self.folder, fn.module, fn.cls, loc))
+
+    def _test(self, fn, test: ast.expr, rule: str, env: Dict[str, object]) -> Optional[bool]:  # type: ignore[no-untyped-def]
         """Truth of a dispatch test when the matched rule is `rule`; None if it depends on more."""
         if isinstance(test, ast.UnaryOp) and isinstance(test.op, ast.Not):
-            v = self._test(fn, test.operand, rule)
+            v = self._test(fn, test.operand, rule, env)
             return None if v is None else not v
         if isinstance(test, ast.BoolOp):
-            vals = [self._test(fn, v, rule) for v in test.values]
+            vals = [self._test(fn, v, rule, env) for v in test.values]
             if isinstance(test.op, ast.And):
                 if any(v is False for v in vals):
                     return False
@@ -130,20 +147,14 @@ class LexerModel:
             if any(v is True for v in vals):
                 return True
             return False if all(v is False for v in vals) else None
-        if isinstance(test, ast.Compare) and len(test.ops) == 1 and self._is_kind(test.left):
-            comp = test.comparators[0]
-            op = test.ops[0]
-            if isinstance(op, (ast.Eq, ast.NotEq)):
-                c = self._const(fn, comp)
-                if c is None:
-                    return None
-                return (c == rule) == isinstance(op, ast.Eq)
-            if isinstance(op, (ast.In, ast.NotIn)) and isinstance(comp, (ast.Tuple, ast.List, ast.Set)):
-                out = [self._const(fn, x) for x in comp.elts]
-                if all(o is not None for o in out):
-                    return (rule in out) == isinstance(op, ast.In)
-            if isinstance(op, (ast.Is, ast.IsNot)) and isinstance(comp, ast.Constant) and comp.value is None:
-                return isinstance(op, ast.IsNot)
+        if not any(self._is_kind(n) or (isinstance(n, ast.Name) and n.id in env) for n in ast.walk(test) if isinstance(n, ast.expr)):
+            return None
+        try:
+            v = self._fold(fn, test, rule, env)
+        except NotConst:
+            return None
+        if isinstance(v, (bool, int, str, tuple, list, dict, set, frozenset)) or v is None:
+            return bool(v)
         return None
 
     def _parse_tokenize(self) -> None:
@@ -161,23 +172,23 @@ class LexerModel:
         for rule, _ in self.rules:
             before = len(self.emits)
             ends: Set[str] = set()
-            self._walk(fn, loop.body, rule, ends)
+            self._walk(fn, loop.body, rule, ends, {})
             if len(self.emits) == before:
                 if "raise" in ends:
                     self.illegal.add(rule)
                 else:
                     self.skipped.add(rule)
 
-    def _walk(self, fn, body: List[ast.stmt], rule: str, ends: Set[str]) -> bool:  # type: ignore[no-untyped-def]
+    def _walk(self, fn, body: List[ast.stmt], rule: str, ends: Set[str], env: Dict[str, object]) -> bool:  # type: ignore[no-untyped-def]
         """Walk `body` for `rule`; True if control can fall off its end."""
-        for i, s in enumerate(body):
+        for s in body:
             if isinstance(s, ast.If):
-                v = self._test(fn, s.test, rule)
+                v = self._test(fn, s.test, rule, env)
                 falls = False
                 if v is not False:
-                    falls |= self._walk(fn, s.body, rule, ends)
+                    falls |= self._walk(fn, s.body, rule, ends, dict(env) if v is None else env)
                 if v is not True:
-                    falls |= self._walk(fn, s.orelse, rule, ends)
+                    falls |= self._walk(fn, s.orelse, rule, ends, dict(env) if v is None else env)
                 if not falls:
                     return False
             elif isinstance(s, ast.Continue):
@@ -187,14 +198,34 @@ class LexerModel:
                 ends.add("raise")
                 return False
             elif isinstance(s, ast.Expr) and isinstance(s.value, ast.Yield):
-                self._emit(fn, s.value, rule)
-            elif isinstance(s, (ast.Assert, ast.Assign, ast.AnnAssign, ast.Pass)):
+                self._emit(fn, s.value, rule, env)
+            elif isinstance(s, (ast.Assign, ast.AnnAssign)) and getattr(s, "value", None) is not None:
+                targets = s.targets if isinstance(s, ast.Assign) else [s.target]
+                try:
+                    val = self._fold(fn, s.value, rule, env)  # type: ignore[arg-type]
+                    ok = True
+                except NotConst:
+                    ok = False
+                for t in targets:
+                    if isinstance(t, ast.Name):
+                        if ok:
+                            env[t.id] = val
+                        else:
+                            env.pop(t.id, None)
+                    elif isinstance(t, (ast.Tuple, ast.List)) and all(isinstance(x, ast.Name) for x in t.elts):
+                        if ok and isinstance(val, (tuple, list)) and len(val) == len(t.elts):
+                            for x, v2 in zip(t.elts, val):
+                                env[x.id] = v2  # type: ignore[attr-defined]
+                        else:
+                            for x in t.elts:
+                                env.pop(x.id, None)  # type: ignore[attr-defined]
+            elif isinstance(s, (ast.Assert, ast.Pass, ast.AnnAssign)):
                 continue
             else:
                 raise AnalysisError(f"Lexer.tokenize: unrecognised statement `{ast.unparse(s)[:60]}` in the dispatch loop")
         return True
 
-    def _emit(self, fn, y: ast.Yield, rule: str) -> None:  # type: ignore[no-untyped-def]
+    def _emit(self, fn, y: ast.Yield, rule: str, env: Dict[str, object]) -> None:  # type: ignore[no-untyped-def]
         call = y.value
         if not (isinstance(call, ast.Call) and isinstance(call.func, ast.Name)):
             raise AnalysisError("Lexer.tokenize: yield of something that is not a token constructor")
@@ -221,22 +252,42 @@ class LexerModel:
             and value_e.func.attr == "group"
         ):
             if value_e.args:
-                g = value_e.args[0]
-                if not (isinstance(g, ast.Constant) and isinstance(g.value, str)):
-                    raise AnalysisError("Lexer.tokenize: non-constant group name")
-                group = g.value
+                try:
+                    g = self._fold(fn, value_e.args[0], rule, env)
+                except NotConst:
+                    raise AnalysisError("Lexer.tokenize: non-constant group name") from None
+                if isinstance(g, str):
+                    group = g
+                elif g == 0:
+                    group = None  # group 0 is the whole match
+                else:
+                    raise AnalysisError("Lexer.tokenize: group is neither a name nor 0")
         else:
             raise AnalysisError(f"Lexer.tokenize: token value `{ast.unparse(value_e)}` is not match.group(...)")
-        if self._is_kind(kind_e):
-            k2 = rule
-        else:
-            kc = self._const(fn, kind_e)
-            if kc is None:
+        # the emitted kind: a constant, or a conditional between constants that depends on the matched text
+        kinds: List[str] = []
+
+        def kinds_of(e: ast.expr) -> None:
+            if isinstance(e, ast.IfExp):
+                d = self._test(fn, e.test, rule, env)
+                if d is not False:
+                    kinds_of(e.body)
+                if d is not True:
+                    kinds_of(e.orelse)
+                return
+            try:
+                kv = self._fold(fn, e, rule, env)
+            except NotConst:
+                raise AnalysisError("Lexer.tokenize: non-constant token kind") from None
+            if not isinstance(kv, str):
                 raise AnalysisError("Lexer.tokenize: non-constant token kind")
-            k2 = kc
-        e = Emit(k2, rule, group, or_empty)
-        if e not in self.emits:
-            self.emits.append(e)
+            kinds.append(kv)
+
+        kinds_of(kind_e)
+        for k2 in kinds:
+            e = Emit(k2, rule, group, or_empty)
+            if e not in self.emits:
+                self.emits.append(e)
 
     # --------------------------------------------------------------- query
     def rule_pattern(self, rule: str) -> str:
